@@ -60,6 +60,7 @@ struct ProblemOptions
     double dedx{2.0};  //!< MeV/cm in the dense material
     size_type max_streams{1};
     bool msc{false};  //!< Urban multiple scattering for e-/e+ with a synthetic transport cross section
+    double fixed_step{0};  //!< PhysicsParamsOptions::fixed_step_limiter (charged particles), 0 = off
     double field_tesla{0};  //!< uniform magnetic field along (1,1,1)/sqrt(3) * value; 0 = linear propagation
     Script* script{nullptr};  //!< scripted physics instead of the EM processes
     double electron_mass{0.5109989461};
@@ -270,6 +271,7 @@ inline void build_problem(Problem& p, ProblemOptions const& o)
     }
     pin.action_registry = p.action_reg.get();
     pin.options.secondary_stack_factor = o.secondary_stack_factor;
+    pin.options.fixed_step_limiter = o.fixed_step;
     p.physics = std::make_shared<PhysicsParams>(std::move(pin));
     SimParams::Input si;
     si.particles = p.particles;
